@@ -190,8 +190,7 @@ package vbft
 //@   requires pool != nil && !isnil(pool.candidateBlocks) && pool.server != nil && C < N
 //@   requires has(pool.candidateBlocks, blkNum) ==> wfCand(pool.candidateBlocks[blkNum]) && forall a int :: 0 <= a && a < len(pool.candidateBlocks[blkNum].CommitMsgs) ==> pool.candidateBlocks[blkNum].CommitMsgs[a] != nil
 //@   modifies nothing
-//@   ghost var gc uint32
-//@   set after "C = N - 1 - C" : gc := C
+//@   ghost var gc uint32 = N - 1 - C   -- the signature quorum, from the parameters (the code reuses C for it)
 //@   snapshot si before loop 2
 //@   loop 1 invariant !isnil(endorseCnt) && candidate != nil && wfCand(candidate) && C == gc
 //@   loop 1 invariant[c41-one-empty-vote-per-participant] int(emptyCnt) <= it1
